@@ -351,11 +351,39 @@ def wf_params(fmt, rng, size=None, big=False):
                     tail=rng.choice([0, 1, 100, 5000]), other_off=rng.getrandbits(40))
     if fmt == 'vmdk':
         footer = rng.random() < 0.4
-        return dict(sectors=size if size is not None else rng.choice(size_values(64, rng, 2)),
+        p = dict(sectors=size if size is not None else rng.choice(size_values(64, rng, 2)),
                     ver=rng.choice([1, 2, 3]), desc_num=rng.choice([1, 1, 2, 3, 8, 20] + ([100, 2047, 2048] if big else [])),
                     typ=rng.choice(SPARSE_TYPES), footer=footer, body=rng.choice([0, 1, 700, 2000]),
                     header_fill=rng.choice([0, 0, 0x41]))
+        if p['desc_num'] <= 20 and rng.random() < 0.25:
+            # the descriptor text fills its sectors exactly, no NUL padding
+            p['desc'] = exact_fill_desc(p['typ'], p['desc_num'] * 512, rng.random() < 0.6, rng.random() < 0.5)
+        return p
     raise KeyError(fmt)
+
+
+def exact_fill_desc(typ, nbytes, type_last, trailing_nl, rng=None):
+    """a VMDK descriptor whose text fills `nbytes` exactly (no NUL padding): the createType line last or
+    not, with or without a final newline; comment lines take up the slack"""
+    ct = 'createType="%s"' % typ
+    lines = ['# Disk DescriptorFile', 'version=1', 'CID=fffffffe', 'parentCID=ffffffff']
+    tail = ['RW 2048 SPARSE "disk.vmdk"', 'ddb.adapterType = "ide"']
+    body = (lines + tail + [ct]) if type_last else (lines + [ct] + tail)
+    text = '\n'.join(body) + ('\n' if trailing_nl else '')
+    slack = nbytes - len(text)
+    if slack < 2:
+        raise ValueError('descriptor does not fit')
+    filler = []
+    while slack > 0:                       # comment lines "#xxx\n" of at most 70 bytes
+        k = min(slack, 70)
+        if slack - k == 1:
+            k -= 1
+        filler.append('#' + 'x' * (k - 2))
+        slack -= k
+    text = '\n'.join(filler) + '\n' + text
+    out = text.encode('ascii')
+    assert len(out) == nbytes and b'\0' not in out, (len(out), nbytes)
+    return out
 
 
 def wellformed(fmt, rng, size=None, big=False, params=None):
@@ -411,6 +439,8 @@ def mutation_table(fmt, rng):
         for v in _v64(rng):
             add('size', size=v)
         add('fill', header_fill=0xff)
+        for v in (104, 112, 0x100000, 0xFFFFFFF8, U32):
+            add('header_length', header_length=v, refcount_order=4)
     elif fmt == 'qed':
         for v in (b'QED\x01', b'QEE\0', b'\0\0\0\0'):
             add('magic', magic=v)
@@ -628,6 +658,57 @@ def hostile(rng, quick=True):
     for io in (0, 31, 32, 192, K64 - 1, K64, 1 << 20, U32):
         vx('item_ptr', meta_off=256 * K, item_off=io, item_len=U32, total=256 * K + K64 + 5000, fill=0x55)
     return out
+
+
+SWEEP_VALUES = [bytes.fromhex(x) for x in ('00000000', 'f8ffffff', 'fffffff8', '00001000', '00100000', 'ffffffff')]
+
+
+class SweepBase:
+    """a clean image split at the point where a long tail can be inserted (head + tail + foot) and the
+    byte ranges of its header structures, as (part, start, end)"""
+
+    def __init__(self, fmt, name, head, foot, ranges):
+        self.fmt, self.name, self.head, self.foot, self.ranges = fmt, name, head, foot, ranges
+
+    def fields(self):
+        """every 4-byte-aligned field of the header structures x every sweep value"""
+        for part, a, b in self.ranges:
+            for off in range(a, b - 3, 4):
+                for v in SWEEP_VALUES:
+                    yield part, off, v
+
+    def stream(self, field, tail_len, tail_byte=0x5a):
+        head, foot = self.head, self.foot
+        if field is not None:
+            part, off, v = field
+            if part == 'head':
+                head = head[:off] + v + head[off + 4:]
+            else:
+                foot = foot[:off] + v + foot[off + 4:]
+        return head + bytes([tail_byte]) * tail_len + foot
+
+
+def sweep_bases(fmt):
+    if fmt == 'vhdx':
+        kw = dict(meta_off=256 * K, item_off=192, tail=0, nreg=2, nmeta=5)
+        d, _ = images.vhdx(**kw)
+        return [SweepBase(fmt, 'vhdx', d, b'', [('head', 0, 512), ('head', H, H + 16 + 32 * 2),
+                                               ('head', 256 * K, 256 * K + 32 + 32 * 5), ('head', 256 * K + 192, 256 * K + 200)])]
+    if fmt == 'vmdk':
+        f, _ = images.vmdk(footer=True, body=0)
+        n, _ = images.vmdk(footer=False, body=0)
+        return [SweepBase(fmt, 'vmdk-footer', f[:-1536], f[-1536:], [('head', 0, 512), ('foot', 0, 1536)]),
+                SweepBase(fmt, 'vmdk', n, b'', [('head', 0, 512)])]
+    if fmt == 'iso':
+        d, _ = images.iso(total=34 * K)
+        return [SweepBase(fmt, 'iso', d, b'', [('head', 0, 512), ('head', 32 * K, 34 * K)])]
+    if fmt == 'luks':
+        d, _ = images.luks(body_len=0)
+        return [SweepBase(fmt, 'luks', d, b'', [('head', 0, 592)])]
+    if fmt == 'raw':
+        return [SweepBase(fmt, 'raw', bytes(512), b'', [('head', 0, 512)])]
+    d, _ = images.BUILDERS[fmt]()
+    return [SweepBase(fmt, fmt, d[:512], b'', [('head', 0, 512)])]
 
 
 def big_streams(rng, quick=True):
